@@ -896,6 +896,36 @@ fn gen_c14(ctx: &mut Ctx) {
         let _ = failed;
         ctx.case(format!("BUS {} {} {}", k, head, hist.join(" ")), true, &format!("walk-{}-signs", k));
     }
+    // a bus made of signs that were already in the middle of something when the bus was put together (driven alone
+    // before): a sign waiting for its configuration block, a sign half-way through a page, next to a fresh one, in either
+    // order on the bus.  Each must finish exactly as it would alone.
+    for order in 0..2usize {
+        let block = &config_blocks()[0].0;
+        let page: Vec<String> = (0..6usize).map(|i| format!("SD.{}.{}", i * 16, chunk(16, i))).collect();
+        for scenario in 0..3usize {
+            let (pre, msgs, want): (Vec<String>, Vec<String>, &str) = match scenario {
+                0 => (vec!["RO.3.RCF".into()], vec![format!("SD.0.{}", block), "DC.1".into(), "QS.3".into()], "RS.3.CRX"),
+                1 => {
+                    let mut pre = vec!["RO.3.RCF".to_string(), format!("SD.0.{}", block), "DC.1".into(), "RO.3.RPX".into()];
+                    pre.extend(page[..3].iter().cloned());
+                    let mut m: Vec<String> = page[3..].to_vec();
+                    m.extend(["DC.6".to_string(), "QS.3".into()]);
+                    (pre, m, "RS.3.PRX")
+                }
+                _ => {
+                    let mut pre = vec!["RO.3.RCF".to_string(), format!("SD.0.{}", block), "DC.1".into(), "RO.3.RPX".into()];
+                    pre.extend(page.iter().cloned());
+                    (pre, vec!["DC.6".into(), "QS.3".into(), "PC.3".into(), "QS.3".into()], "RS.3.PLD")
+                }
+            };
+            let (head, idx) = if order == 0 { ("3 M 5 A", 0) } else { ("5 A 3 M", 1) };
+            let pre: Vec<String> = pre.iter().map(|m| format!("{}~{}", idx, m)).collect();
+            let line = format!("BUSP 2 {} {} | {}", head, pre.join(" "), msgs.join(" "));
+            let res = ctx.case(line.clone(), true, "bus-of-signs-with-a-past");
+            let last = res.split(" # ").next().unwrap_or("").split(' ').filter(|x| !x.is_empty()).last().unwrap_or("").split('/').next().unwrap_or("").to_string();
+            ctx.monitor(last == want, "C14-isolation", &line, &format!("the sign with a past answered {} at the end, alone it answers {}", last, want));
+        }
+    }
     // a long-lived bus: more than 65 536 messages for other addresses and for nobody pass a sign that is in a state a query
     // would move on (page show / load in progress); it must sit there untouched the whole time
     for (trans_op, later) in [("SLP", 65_600usize), ("SLP", 131_100)].into_iter().take(if thorough { 2 } else { 1 }) {
